@@ -16,7 +16,7 @@ CLAIMS = {
         "chain lists, calendar aggregation with algorithm switching, calendar time derivation, index shape) plus theorems (closed-form level, calendar "
         "time algorithm = inverse of the reference tree shape and accepts no other shape); TLC checks the theorems on every enumerated case and exports "
         "the value the spec assigns; every case is concretised with hashlib and replayed through the libksi chain APIs, including repeated aggregation of "
-        "one chain object from several start levels.",
+        "one chain object from several start levels. CalWide.tla restates the calendar time arithmetic on bit sequences (theorem SameAsIntegers on every small number) so that publication times of 32..63 bits are covered.",
    note="Bounds: quick = all link sequences <=2 over side x 3 sibling kinds x 8 boundary corrections x 4 start levels, long uniform chains to 256 links, all calendar shapes <=7 x publication times <=127, index shapes <=8 and 31..70; thorough = calendar shapes <=11 x times <=2047. Publication times < 2^31 in the model. Trusted: TLC, hashlib, harness/drv_chain.c.",
    technique="TLC-checked TLA+ function specification; exhaustive TLC-generated case tables replayed into libksi with hashlib-concretised hash terms"),
  "C13": dict(level="model_checking", design_ref="DESIGN.md 4/C13",
@@ -25,8 +25,10 @@ CLAIMS = {
         "ExactlyOnce, ResponseOnlyIfValidReply, CountsAgree, RefusedOnlyWhenFull, CauseIsReal exhaustively for small caches; the real async service and "
         "the real TCP client are run on a link-time scripted socket layer under seeded random schedules (cache 1..64) and every recorded execution is "
         "validated by TLC against the same spec (only latitude: which finished handle a run hands back). Every third scenario runs the EXTENDING "
-        "async service (extension requests with / without publication time, calendar-chain replies; a reply whose times do not fit its request fails that request only).",
-   note="Bounds: MC N=1 / 2 requests / clock <= 1 (quick, 1.3e6 states; clock <= 2 in thorough: 4.8e6), N=2 with 2-3 requests (thorough); traces: 4-8 option groups x 25-120 schedules. The HTTP (curl multi) async client is covered on a scripted curl multi interface (constant Http, DispatchHttp, trace event HDone; defect F-C13-3 fixed, F-C13-4 recorded). Liveness: FairSpec |= EventuallyReturned (TCP and HTTP variants, N=1, 2 requests); defect F-C13-5 fixed. Not covered: pushed configurations. Known finding F-C13-1 (premature reply accepted). Trusted: TLC, tools/ksi.py reference aggregator, harness/drv_net.c socket script.",
+        "async service (extension requests with / without publication time, calendar-chain replies; a reply whose times do not fit its request fails that request only). "
+        "The client's configuration slot is part of the model (configuration requests without identifier, pushed configurations, configuration payloads in "
+        "authenticated PDUs; OneSlot, ConfOnlyIfConfArrived) and of every recorded TCP schedule.",
+   note="Bounds: MC N=1 / 2 requests / clock <= 1 (quick, 1.3e6 states; clock <= 2 in thorough: 4.8e6), N=2 with 2-3 requests (thorough); traces: 4-8 option groups x 25-120 schedules. The HTTP (curl multi) async client is covered on a scripted curl multi interface (constant Http, DispatchHttp, trace event HDone; defect F-C13-3 fixed, F-C13-4 recorded). Liveness: FairSpec |= EventuallyReturned (TCP and HTTP variants, N=1, 2 requests); defect F-C13-5 fixed. Configuration slot: MC with two configuration requests (4.4e5 states); defects F-C13-6, F-C13-7 fixed. Known finding F-C13-1 (premature reply accepted). Trusted: TLC, tools/ksi.py reference aggregator, harness/drv_net.c socket script.",
    technique="TLC model checking + TLC trace validation of executions of the real async service on scripted sockets"),
  "C14": dict(level="model_checking", design_ref="DESIGN.md 4/C14",
    text="TcpStream.tla has one action per system-call outcome of net_tcp_async.c dispatch() (poll, recv n/would-block/eof/reset, buffer full, send n/would-block/"
